@@ -104,7 +104,9 @@ func (s *dsys) stop() {
 	if s.cancel != nil {
 		s.cancel()
 		s.cancel = nil
-		synctest.Wait() // let the epoch loop goroutine observe the cancellation and exit
+		if s.lease() {
+			synctest.Wait() // let the epoch loop goroutine observe the cancellation and exit
+		}
 	}
 }
 
@@ -599,7 +601,7 @@ func distModels(thorough bool) []*explore.Model {
 	type b struct{ depth, nd, faults, restarts, remote int }
 	q := b{4, 0, 1, 1, 2}
 	if thorough {
-		q = b{6, 0, 2, 2, 2}
+		q = b{6, 0, 2, 2, 3}
 	}
 	cfgs := []dcfg{
 		{"session/30", allocator.PoolModeSession, "10.0.0.0/30", 3, q.faults, q.restarts, q.remote},
@@ -609,11 +611,16 @@ func distModels(thorough bool) []*explore.Model {
 	var ms []*explore.Model
 	for _, c := range cfgs {
 		c := c
+		depth, exec := q.depth, bubble
+		if c.mode == allocator.PoolModeSession {
+			// session mode starts no goroutine and reads no clock that matters: no bubble needed, one level deeper
+			depth, exec = q.depth+1, nil
+		}
 		ms = append(ms, &explore.Model{
 			Name:   "dist",
 			Config: fmt.Sprintf("%s subs=%d faults<=%d restarts<=%d remote<=%d", c.name, c.subs, c.maxFaults, c.maxRestarts, c.maxRemote),
 			New:    func() explore.System { return newDsys(c) },
-			Depth:  q.depth, NoDedupDepth: q.nd, Exec: bubble, Classify: classify,
+			Depth:  depth, NoDedupDepth: q.nd, Exec: exec, Classify: classify,
 			Budget: 8 * time.Minute,
 		})
 	}
